@@ -112,7 +112,7 @@ if "--refresh-only" not in sys.argv:
             for v, nv in letters:
                 src = "%s/%s/%s" % (root, pid, v)
                 sid = pid + nv
-                if not os.path.exists(src + "/verify.txt") or "%s/%s" % (pid, v) not in matrix:
+                if not os.path.exists(src + "/verify.txt"):
                     continue
                 dst = os.path.join(VERIF, "seeded", sid)
                 keep = None
@@ -138,22 +138,21 @@ if "--refresh-only" not in sys.argv:
                         "how": "tools/seedverify.sh: scratch worktree of /repo HEAD %s, git apply, cmake -DQTLOGGER_NO_EXAMPLES=ON + build, ctest (18 programs = the 349 QtTest functions), demo/demo.sh with the change (must fail) and after git checkout (must pass); worktree removed" % vhead_repo,
                         "log": ver.strip().splitlines(),
                     },
-                    "static_checks": static_block(matrix["%s/%s" % (pid, v)], pid),
+                    "static_checks": static_block(matrix["%s/%s" % (pid, v)], pid) if "error" not in matrix.get("%s/%s" % (pid, v), {"error": 1}) else None,
                 }
                 if keep is not None:
                     meta["rebased"] = keep["rebased"]
                     meta["confirmed_by_me"] = keep["confirmed_by_me"]
                 json.dump(meta, open(dst + "/meta.json", "w"), indent=1)
-# refresh round 1 from its matrix when present
-m1 = "/tmp/seed_out/matrix.json"
-if os.path.exists(m1):
-    matrix = json.load(open(m1))
-    for pid in ["C%02d" % i for i in range(1, 21)]:
-        for v in "AB":
-            mp = os.path.join(VERIF, "seeded", pid + v, "meta.json")
-            if os.path.exists(mp) and "%s/%s" % (pid, v) in matrix:
-                meta = json.load(open(mp))
-                meta.setdefault("round", 1)
-                meta["static_checks"] = static_block(matrix["%s/%s" % (pid, v)], pid)
-                json.dump(meta, open(mp, "w"), indent=1)
+# refresh every seed's static_checks from a matrix over /verif/seeded itself (tools/seedmatrix.py /verif/seeded --out <file>)
+if "--refresh-from" in sys.argv:
+    matrix = json.load(open(sys.argv[sys.argv.index("--refresh-from") + 1]))
+    for key, m in matrix.items():
+        pid, letter = key.split("/")
+        mp = os.path.join(VERIF, "seeded", pid + letter, "meta.json")
+        if os.path.exists(mp) and "error" not in m:
+            meta = json.load(open(mp))
+            meta.setdefault("round", 1)
+            meta["static_checks"] = static_block(m, pid)
+            json.dump(meta, open(mp, "w"), indent=1)
 print("done")
